@@ -34,7 +34,10 @@ RULE = ("two streams.  (a) single calls; (b) HISTORIES (a third of the cases): a
         "fifths, sevenths, ...), random ranks and tie-breaking rule, budget fitting only one of the two; (d) NEAR-TIE "
         "stream (1/12): densities built from 6..9-digit integers with sA*cB - sB*cA = 1 (relative gap 1e-12..1e-18), "
         "the denser project must win; (e) DEGENERATE stream (1/12): no ballots, only empty ballots, only unaffordable "
-        "projects supported, exhaustive initial allocation, all costs zero.  (a) elections with 0..6 voters and 1..7 projects (<=6 when irresolute); all four ballot types x every shipped "
+        "projects supported, exhaustive initial allocation, all costs zero.  Every call also draws a CALL STYLE: initial "
+        "allocation as list / tuple / set / generator expression / iter() / map / filter / BudgetAllocation / None, default vs "
+        "explicit lexicographic tie-breaking, sat_class= vs prebuilt sat_profile=, positional vs keyword arguments, "
+        "analytics.  (a) elections with 0..6 voters and 1..7 projects (<=6 when irresolute); all four ballot types x every shipped "
         "satisfaction measure accepted by the ballot type x Profile/MultiProfile x every shipped tie-breaking rule "
         "accepted x is_sat_additive in {default, forced True, forced False} x resolute/irresolute x feasible initial "
         "allocations; costs from tie-rich pools (zeros, equal costs, halves/thirds), budgets on boundaries; "
@@ -336,6 +339,23 @@ def _gen_degenerate(rng, i, tier):
 
 
 def gen(rng, i, tier):
+    """stream dispatch + the CALL STYLE: the form in which the initial allocation is handed over (list, tuple, set,
+    generator expression, iter(), map, filter, BudgetAllocation, None when empty), default vs explicit lexicographic
+    tie-breaking, positional vs keyword arguments, None arguments passed vs omitted, analytics"""
+    case = _gen0(rng, i, tier)
+    if rng.random() < 0.5 and not case["init"] and case["stream"] in ("general", "degenerate", "exact_tie"):
+        # more non-empty initial allocations: one affordable project
+        costs = [pb.F(c) for c in case["costs"]]
+        j = rng.randrange(len(costs))
+        if costs[j] <= pb.F(case["budget"]) and case["stream"] != "exact_tie":
+            case["init"] = [j]
+    case["style"] = {"init_form": rng.choice(INIT_FORMS), "default_tb": rng.random() < 0.5,
+                     "positional": rng.random() < 0.3, "omit_none": rng.random() < 0.5,
+                     "analytics": rng.random() < 0.15}
+    return case
+
+
+def _gen0(rng, i, tier):
     r = i % 12
     if r in (1, 7):
         return _gen_exact_tie(rng, i, tier)
@@ -381,18 +401,62 @@ def impl(case):
             faulthandler.cancel_dump_traceback_later()
 
 
+INIT_FORMS = ["list", "tuple", "set", "genexpr", "iter", "map", "filter", "budgetallocation", "none_if_empty"]
+
+
+def _init_arg(form, projs, init):
+    """the initial allocation in one of the forms the signature (Collection / Iterable of projects) allows;
+    one-shot iterables are rebuilt for every call"""
+    from pabutools.rules import BudgetAllocation
+
+    items = [projs[j] for j in init]
+    if form == "tuple":
+        return tuple(items)
+    if form == "set":
+        return set(items)
+    if form == "genexpr":
+        return (p for p in items)
+    if form == "iter":
+        return iter(items)
+    if form == "map":
+        return map(lambda p: p, items)
+    if form == "filter":
+        return filter(lambda p: True, items)
+    if form == "budgetallocation":
+        return BudgetAllocation(items)
+    if form == "none_if_empty" and not items:
+        return None
+    return items
+
+
 def _call(inst, prof, projs, case, cls, satp, tb, init, resolute):
     from pabutools.rules import greedy_utilitarian_welfare
 
-    kw = {"tie_breaking": _tie(tb), "resoluteness": resolute,
-          "initial_budget_allocation": [projs[j] for j in init]}
+    st = case.get("style", {})
+    init_arg = _init_arg(st.get("init_form", "list"), projs, init)
+    tie = None if (tb == "lexico" and st.get("default_tb")) else _tie(tb)
     if case["via"] == "profile":
-        kw["sat_profile"] = satp
-        kw["is_sat_additive"] = eff_additive(case)
+        a_cls, a_prof, a_add = None, satp, eff_additive(case)
     else:
-        kw["sat_class"] = cls
-        kw["is_sat_additive"] = case["additive"]
-    res = greedy_utilitarian_welfare(inst, prof, **kw)
+        a_cls, a_prof, a_add = cls, None, case["additive"]
+    analytics = bool(st.get("analytics"))
+    if st.get("positional"):
+        # (instance, profile, sat_class, sat_profile, is_sat_additive, tie_breaking, resoluteness,
+        #  initial_budget_allocation, analytics)
+        res = greedy_utilitarian_welfare(inst, prof, a_cls, a_prof, a_add, tie, resolute, init_arg, analytics)
+    else:
+        kw = {"resoluteness": resolute, "is_sat_additive": a_add}
+        if a_cls is not None:
+            kw["sat_class"] = a_cls
+        if a_prof is not None:
+            kw["sat_profile"] = a_prof
+        if tie is not None or not st.get("omit_none"):
+            kw["tie_breaking"] = tie
+        if init_arg is not None or not st.get("omit_none"):
+            kw["initial_budget_allocation"] = init_arg
+        if analytics:
+            kw["analytics"] = True
+        res = greedy_utilitarian_welfare(inst, prof, **kw)
     return [pb.ranks(res)] if resolute else [pb.ranks(r) for r in res]
 
 
@@ -546,7 +610,9 @@ def stats(cases, obs):
          "equal_costs": 0, "no_voters": 0, "nproj_hist": {}, "nvoters_hist": {},
          "runs_with_tied_round": 0, "runs_with_tie_left_to_name_order": 0, "irresolute_with_several_outcomes": 0,
          "nothing_selected": 0, "everything_selected": 0, "float_valued_sat": 0, "sat_profile_passed": 0,
-         "solver_reaching": 0, "stream": {},
+         "solver_reaching": 0, "stream": {}, "init_form": {}, "init_form_with_nonempty_init": {},
+         "one_shot_iterable_nonempty_init_by_scheme": {"fast": 0, "general_resolute": 0, "irresolute": 0},
+         "default_tie_breaking": 0, "positional_arguments": 0, "analytics": 0,
          "exact_cross_kind_density_tie_non_dyadic": 0, "exact_tie_only_one_fits_fast_path": 0,
          "near_tie_rel_gap_below_1e-12": 0, "near_tie_only_one_fits": 0,
          "history": {"cases": 0, "voters_added_in_place": 0, "general_scheme": 0, "general_scheme_and_voters_added": 0,
@@ -586,6 +652,16 @@ def stats(cases, obs):
         d["sat_profile_passed"] += c["via"] == "profile"
         d["solver_reaching"] += bool(c.get("solver"))
         inc(d["stream"], c.get("stream", "corpus"))
+        st_ = c.get("style", {})
+        inc(d["init_form"], st_.get("init_form", "list"))
+        if c["init"]:
+            inc(d["init_form_with_nonempty_init"], st_.get("init_form", "list"))
+            if st_.get("init_form") in ("genexpr", "iter", "map", "filter"):
+                d["one_shot_iterable_nonempty_init_by_scheme"][
+                    "irresolute" if not c["resolute"] else ("fast" if ea else "general_resolute")] += 1
+        d["default_tie_breaking"] += bool(st_.get("default_tb") and c["tb"] == "lexico")
+        d["positional_arguments"] += bool(st_.get("positional"))
+        d["analytics"] += bool(st_.get("analytics"))
         try:
             spq = [Fraction(x) for x in o["sp"]]
             B = pb.F(c["budget"])
